@@ -11,6 +11,7 @@ serialize → parse), which enters the file-level theorems as the named hypothes
 import MilaModel.Lemmas.AsetBuild
 import MilaModel.Lemmas.ComposeAset
 import MilaModel.Spec.Aset
+import MilaModel.Lemmas.SjisSub
 
 namespace Mila.Props.C17
 open Mila Mila.Aset Mila.Layered BinArchive
@@ -314,6 +315,13 @@ theorem aset_idempotent_unconditional (c : Codec) (D : Str → Prop) (hf : c.Fai
       fromArchive b = .ok f' ∧ serialize c f' = .ok bytes := by
   obtain ⟨bytes, b, hs, hb, hfa⟩ := aset_file_roundtrip_unconditional c D hf f h hD small
   exact ⟨bytes, b, f, hs, hb, hfa, hs⟩
+
+/-- The file-level round trip with no assumption about the text encoding left (`Mila.sjisSub_faithful`). -/
+theorem aset_file_roundtrip_sjisSub (f : ASetFile) (h : WF f) (hD : Compose.AsetStrsIn Sjis.SubDomain f)
+    (small : ∀ a, build f = .ok a → Ser.imageSize sjisSub a < 2 ^ 32) :
+    ∃ bytes b, serialize sjisSub f = .ok bytes ∧ BinArchive.parse sjisSub .little bytes = .ok b ∧
+      fromArchive b = .ok f :=
+  aset_file_roundtrip_unconditional sjisSub Sjis.SubDomain Mila.sjisSub_faithful f h hD small
 
 /-- Non-vacuity of the composed theorems: the identity codec is faithful on NUL-free strings and
 every string of `sample` (and the table label) is NUL-free. -/
